@@ -28,6 +28,20 @@ NEEDS = {
  "C11-m2": ("deserialize_and_validate_commit returns early when the proof has no message responses (src/bbsplus/commitment.rs)", "a commitment over an EMPTY committed-message list replayed to the other ciphersuite"),
  "C12-m1": ("update_signature caches the longest generator list in a thread_local shared by both suites (src/bbsplus/signature.rs)", "an update under one suite followed by an update under the other suite on the same thread"),
  "C12-m2": ("out-of-range check off by one plus lazily sized generator list (src/bbsplus/signature.rs)", "update_index == n exactly"),
+ "C13-m1": ("verify_multiattr range-checks only the last attribute (flag assigned instead of accumulated, src/cl03/signature.rs)", "n >= 2 and the out-of-range (shifted-by-e) attribute at a position other than the last"),
+ "C13-m2": ("exponent bound merged into a helper that is always true (src/cl03/signature.rs)", "a crafted signature with e = 1 built from the public key alone, or an issued one rewritten as (1, v^e)"),
+ "C14-m1": ("trusted-party base looked up by loop index instead of attribute position (src/cl03/sigma_protocols.rs)", "issuance WITH a trusted commitment and a hidden set that is not a prefix [0..k)"),
+ "C14-m2": ("a missing C/C_trusted link proof skips the check instead of panicking (src/cl03/proof.rs)", "a ZKPoK built without the trusted part delivered to an issuer that holds the trusted commitment"),
+ "C15-m1": ("verifier clamps the attribute count to the number of bases (src/cl03/sigma_protocols.rs)", "n' > n while the bases have exactly n entries"),
+ "C15-m2": ("proof_of_square_a verified twice, proof_of_square_b never (src/cl03/range_proof.rs)", "any edit of F / challenge / d / d_1 / d_2 inside proof_of_square_b of an embedded range proof"),
+ "C16-m1": ("binding of the proofs of square rejects only when BOTH sides mismatch (src/cl03/range_proof.rs)", "a proof where exactly one side (E_a_1 or E_b_1) is transplanted or altered"),
+ "C16-m2": ("tolerance exponent rounded up in a shared helper (src/cl03/range_proof.rs)", "interval width with odd bit length and x = a-1 or b+1: the honest prover obtains an accepted proof"),
+ "C17-m1": ("per-attribute commitment reuses C itself for single-attribute credentials (src/cl03/proof.rs)", "n = 1: the proof carries C together with its randomness r"),
+ "C17-m2": ("off-by-one leaves the last hidden attribute blinded with itself (src/cl03/sigma_protocols.rs)", "hidden set contains position n-1: s_5[k] = m(1+c)"),
+ "C18-m1": ("random_bits fills ceil(n/8) octets without masking the excess bits (src/utils/random.rs)", "a bit length that is not a multiple of 8 (le = 258)"),
+ "C18-m2": ("safe-prime test applied to p' instead of p in the own-modulus commitment key (src/cl03/keys.rs)", "CL03CommitmentPublicKey::generate(None, _) only"),
+ "C19-m1": ("hidden positions tracked in a 64-bit bitmap (src/cl03/sigma_protocols.rs)", "a credential with at least 65 attributes and a hidden attribute at position >= 64"),
+ "C19-m2": ("256-bit mask for the trusted commitment's randomness (src/cl03/sigma_protocols.rs)", "issuance with a trusted commitment: floor(d_2 / c) is the 1024-bit opening randomness"),
 }
 confirm = {}
 try:
@@ -56,9 +70,9 @@ for name, (what, needs) in sorted(NEEDS.items()):
         "breaks_property": pid,
         "change": what,
         "needs_to_manifest": needs,
-        "base_commit": "b3ccb8b (the BBS fix commits; later commits touch only src/cl03)",
+        "base_commit": "b3ccb8b (BBS changes) / 993d6f1 (CL03 changes); every patch still applies to the final tree",
         "origin": "written by a sub-agent that saw only the text of the property and its own scratch worktree",
-        "confirmed_in_scratch_worktree": {"command": "cargo test --offline --test demo (clean) / git apply patch.diff; cargo test --offline --lib; cargo test --offline --test demo", "results": confirm.get(name, [])},
+        "confirmed_in_scratch_worktree": {"command": "cargo test --offline --test demo (clean) / git apply patch.diff; cargo test --offline --lib [; cargo test --release --lib cl1024 through the shadow package]; cargo test --offline --test demo", "results": confirm.get(name, [])},
         "checks_run_against_it": "git -C /repo apply patch.diff; ./zk check <ID> (quick tier, VERIF_SEED default); git -C /repo checkout -- .",
         "detected_by": sorted(c for c, v in det.items() if v["exit"] == "exit=1"),
         "per_check": det,
